@@ -366,6 +366,9 @@ func cmdReplay(args []string) int {
 		fmt.Fprintln(os.Stderr, err)
 		return 2
 	}
+	if os.Getenv("VERIF_DEBUG") != "" {
+		fmt.Println(full)
+	}
 	fmt.Printf("expected: %s %q\nnative outcome: %s\n", v.Kind, v.Msg, outcome)
 	if matchOutcome(v.Kind, v.Msg, outcome) {
 		fmt.Println("REPRODUCED")
